@@ -318,6 +318,10 @@ fn inner(plan: &Plan, phase: &AtomicU64) -> Outcome {
     for r in 0..plan.racers {
         let (q, stop) = (q.clone(), stop_racers.clone());
         let c = 100 + r;
+        // on a global sink, every other racer goes through the global itself (which holds the
+        // global's lock for the duration of the append) instead of a sink handle obtained earlier
+        let via_global = plan.kind == Kind::Global && r % 2 == 0;
+        let lane = plan.lane;
         racer_threads.push(std::thread::spawn(move || {
             let mut calls = vec![];
             let mut s = 0u32;
@@ -325,7 +329,16 @@ fn inner(plan: &Plan, phase: &AtomicU64) -> Outcome {
             while !stop.load(Ordering::SeqCst) && s < cap {
                 let id = make_id(c, s);
                 let call = ticket();
-                q.append(IdEntry { id });
+                if via_global {
+                    // handed back once nothing is attached any more: then it was never appended
+                    if on_global!(lane, G => <G as AttachGlobalEntrySink>::try_append(IdEntry { id })).is_err() {
+                        s += 1;
+                        progress_tick();
+                        continue;
+                    }
+                } else {
+                    q.append(IdEntry { id });
+                }
                 calls.push((id, call, ticket()));
                 progress_tick();
                 s += 1;
@@ -467,13 +480,106 @@ fn gen_plan(rng: &mut Rng, lane: u64, thorough: bool) -> Plan {
     }
 }
 
+/// Shutdown while appenders NEVER stop and the stream is slower than they are: the queue is never
+/// seen empty. Bounded-progress form of "the drop returns": once the shutdown flag is stored, the
+/// writer may go round its loop only a few more times before it enters the final drain, which the
+/// (short) shutdown timeout bounds. Counted in loop iterations (hook H1), not in wall time.
+/// Runs alone: the hook counters are process-wide.
+#[cfg(metrique_verif)]
+fn sustained_load_shutdown(rep: &Report) {
+    let hits = |name: &str| vcommon::sync::hook_hits().into_iter().find(|h| h.0 == name).map(|h| h.1).unwrap_or(0);
+    for (round, boxed) in [false, true, false, true].into_iter().enumerate() {
+        rep.eval();
+        let sh = StreamShared::new(round as u64);
+        sh.delay_per_mille.store(1000, Ordering::Relaxed); // every next() is delayed a little
+        let builder = BackgroundQueueBuilder::new()
+            .capacity(4096)
+            .flush_interval(Duration::from_micros(1))
+            .shutdown_timeout(Duration::from_millis(150));
+        let (q, handle) = if boxed {
+            let (q, h) = builder.build_boxed(sh.stream());
+            (Q::Boxed(q), h)
+        } else {
+            let (q, h) = builder.build::<IdEntry>(sh.stream());
+            (Q::Typed(q), h)
+        };
+        let stop = Arc::new(AtomicBool::new(false));
+        let appenders: Vec<_> = (0..2u32)
+            .map(|p| {
+                let (q, stop, sh) = (q.clone(), stop.clone(), sh.clone());
+                std::thread::spawn(move || {
+                    let mut s = 0u32;
+                    while !stop.load(Ordering::SeqCst) {
+                        // stay ahead of the writer without overflowing by much
+                        if (s as u64) < sh.consumed_ids.load(Ordering::SeqCst) / 2 + 1500 {
+                            q.append(IdEntry::new(p, s));
+                            s = s.wrapping_add(1);
+                        } else {
+                            std::thread::yield_now();
+                        }
+                        progress_tick();
+                    }
+                })
+            })
+            .collect();
+        let _ = progress_wait(|| sh.consumed_ids.load(Ordering::SeqCst) > 300, Duration::from_secs(20));
+        let stores_before = hits("bq.handle_drop.after_store");
+        let done = Arc::new(AtomicBool::new(false));
+        let d2 = done.clone();
+        let dropper = std::thread::spawn(move || {
+            handle.shut_down();
+            d2.store(true, Ordering::SeqCst);
+        });
+        let _ = progress_wait(|| hits("bq.handle_drop.after_store") > stores_before, Duration::from_secs(20));
+        let loops_at_store = hits("bq.run.after_drain");
+        let consumed_at_store = sh.consumed_ids.load(Ordering::SeqCst);
+        let began = Instant::now();
+        let mut verdict = None;
+        while !done.load(Ordering::SeqCst) {
+            let loops = hits("bq.run.after_drain") - loops_at_store;
+            if loops > 300 {
+                verdict = Some(loops);
+                break;
+            }
+            if began.elapsed() > Duration::from_secs(60) {
+                rep.inconclusive("sustained-load shutdown: neither returned nor exceeded the loop bound within 60 s");
+                break;
+            }
+            std::thread::sleep(Duration::from_millis(1));
+        }
+        let consumed_since = sh.consumed_ids.load(Ordering::SeqCst) - consumed_at_store;
+        stop.store(true, Ordering::SeqCst);
+        for a in appenders {
+            let _ = a.join();
+        }
+        let _ = dropper.join();
+        if let Some(loops) = verdict {
+            rep.violation(
+                "shutdown-not-noticed-under-sustained-load",
+                json!({"what": "the join handle was dropped while appenders kept the queue non-empty: the writer went round its drain loop hundreds of times after the shutdown flag had been stored without starting the shutdown (the drop returned only once the appenders were stopped)",
+                       "boxed": boxed, "writer_loop_iterations_after_flag_store": loops, "entries_written_since": consumed_since, "bound": 300}),
+            );
+            return;
+        }
+        if !sh.is_dropped() || !sh.thread_exited() {
+            rep.violation("stream-not-closed-at-drop-return", json!({"what": "sustained-load shutdown returned, but the stream was not dropped / the thread had not exited", "boxed": boxed}));
+            return;
+        }
+        rep.count("sustained_load_shutdowns", 1);
+        rep.max("sustained_load_max_loops_after_flag", hits("bq.run.after_drain") - loops_at_store);
+        rep.distinct(Fnv::new().str("sustained").u64(round as u64).finish());
+        drop(q);
+    }
+}
+
 fn native_main(args: &Args, rep: &Report) {
     rep.rule(
         "each evaluation is one history on a typed / boxed / global-sink-attached queue: 1-4 client threads append through handles and clones \
          (with flushes), 0-2 racer threads append across the drop, optionally the writer is held inside next() or flush() so a backlog exists when \
          drop(handle) (or drop(AttachHandle), or forget + drop of the last queue handle) happens; oracle on the stream log + Drop/thread-exit flags: \
          everything appended before the drop began is written before it returns, a flush follows the last entry, stream dropped and thread exited \
-         before the return, nothing written afterwards; distinct = distinct (kind, gate, forget, delivery order) signatures",
+         before the return, nothing written afterwards. Finally, alone: shutdown while two appenders never stop and the stream is slow (queue never empty): \
+         the writer must start its final drain within a few loop iterations of the flag store (counted at hook H1; the 150 ms shutdown timeout bounds the rest); distinct = distinct (kind, gate, forget, delivery order) signatures",
     );
     vcommon::sync::install_perturbation(args.seed, 50);
     let budget = Duration::from_secs(args.get_u64("secs", args.by_tier(12, 150)));
@@ -500,6 +606,10 @@ fn native_main(args: &Args, rep: &Report) {
             });
         }
     });
+    #[cfg(metrique_verif)]
+    if rep.violation_count() == 0 {
+        sustained_load_shutdown(rep);
+    }
     for (name, hits) in vcommon::sync::hook_hits() {
         rep.set(&format!("hook:{name}"), hits);
     }
